@@ -68,7 +68,7 @@ def cases(tier, seed):
             yield {"k": "merge", "s": list(sub)}
     # CLI build slice
     for p in list(ref.PREFIXES) + [None]:
-        for yopt in ("exclude", "one", "two", "default"):
+        for yopt in ("exclude", "one", "two", "default", "range+one", "one+range", "three"):
             for h in HOLDERS[:6] if tier == "quick" else HOLDERS:
                 yield {"k": "cli-build", "h": h, "p": p, "yopt": yopt}
     # the same through a project template (.reuse/templates), every holder
@@ -239,6 +239,16 @@ def ev_cli_build(c) -> R:
     elif c["yopt"] == "two":
         argv += ["--year", "2021", "--year", "2019"]
         years_ok = ["2019 - 2021"]
+    elif c["yopt"] == "range+one":
+        # one of several --year values is itself a range
+        argv += ["--year", "2015-2017", "--year", "2021"]
+        years_ok = ["2015 - 2021"]
+    elif c["yopt"] == "one+range":
+        argv += ["--year", "2012", "--year", "2015 - 2017"]
+        years_ok = ["2012 - 2017"]
+    elif c["yopt"] == "three":
+        argv += ["--year", "2021", "--year", "2015", "--year", "2018"]
+        years_ok = ["2015 - 2021"]
     if c["p"]:
         argv += ["--copyright-prefix", c["p"]]
     y0 = datetime.date.today().year
